@@ -876,6 +876,52 @@ func c15ReportNotTrimmed(c *Ctx, rule string) {
 		n, isN := p.Elem().(*types.Named)
 		return isN && n.Obj().Name() == "Changed" && n.Obj().Pkg() != nil && n.Obj().Pkg().Path() == prog.Abs("sio")
 	}
+	// dupFact: among the facts is the equality of two strings (the serialised form and the one last reported), as
+	// such or as what the true result of a helper of package sio implies (`repeated, err := c.seenBefore(mid, ch)`).
+	var dupFact func(fs []flow.Fact, depth int) bool
+	dupFact = func(fs []flow.Fact, depth int) bool {
+		for _, ft := range fs {
+			if bo, ok := ft.Cond.(*ssa.BinOp); ok && bo.Op.String() == "==" && ft.True {
+				if bt, isB := bo.X.Type().Underlying().(*types.Basic); isB && bt.Kind() == types.String {
+					return true
+				}
+			}
+		}
+		if depth >= 3 {
+			return false
+		}
+		for _, ft := range fs {
+			cond, pol := ft.Cond, ft.True
+			if u, ok := cond.(*ssa.UnOp); ok && u.Op.String() == "!" {
+				cond, pol = u.X, !pol
+			}
+			if !pol {
+				continue
+			}
+			var cl *ssa.Call
+			ri := 0
+			switch x := cond.(type) {
+			case *ssa.Call:
+				cl = x
+			case *ssa.Extract:
+				cl, _ = x.Tuple.(*ssa.Call)
+				ri = x.Index
+			}
+			if cl == nil {
+				continue
+			}
+			h := cl.Common().StaticCallee()
+			if h == nil || prog.PkgOf(h) != "sio" {
+				continue
+			}
+			if trueImplies(h, ri, func(b *ssa.BasicBlock, extra []flow.Fact) bool {
+				return dupFact(append(flow.FactsAt(b), extra...), depth+1)
+			}) {
+				return true
+			}
+		}
+		return false
+	}
 	nd, ns := 0, 0
 	for _, f := range scope {
 		ssau.Instrs(f, func(in ssa.Instruction) {
@@ -889,14 +935,7 @@ func c15ReportNotTrimmed(c *Ctx, rule string) {
 					return // the cache being drained, not the report
 				}
 				nd++
-				dup := false
-				for _, ft := range flow.FactsAt(in.Block()) {
-					if bo, ok := ft.Cond.(*ssa.BinOp); ok && bo.Op.String() == "==" && ft.True {
-						if bt, isB := bo.X.Type().Underlying().(*types.Basic); isB && bt.Kind() == types.String {
-							dup = true
-						}
-					}
-				}
+				dup := dupFact(flow.FactsAt(in.Block()), 0)
 				c.R.Check(dup, rule, fmt.Sprintf("%s: entry #%d taken out of the report", fname(f), nd), c.pos(in), "only under the equality of its serialised form with the last one reported", "an entry is taken out of the report without being a duplicate of what was last reported: that change never reaches the store")
 			case *ssa.Store:
 				fa, ok := x.Addr.(*ssa.FieldAddr)
